@@ -215,4 +215,39 @@ theorem fromUtf8_toUtf8 (s : List Char) : fromUtf8 (toUtf8 s) = s := by
       · by_cases h3 : c.toNat < 0x10000
         · rw [fromUtf8_step3 c h2 h3, ih]
         · rw [fromUtf8_step4 c h3, ih]
+/-! ### hex decoder soundness -/
+
+/-- ASCII lower-casing of the hex letters A-F -/
+def lowerHex (c : UInt8) : UInt8 := if 65 ≤ c.toNat ∧ c.toNat ≤ 70 then UInt8.ofNat (c.toNat + 32) else c
+
+def unhexOK (c : UInt8) : Bool :=
+  match unhex c with
+  | some a => decide (a < 16) && (hexDig a == lowerHex c)
+  | none => true
+
+theorem unhex_sound_nat : ∀ n, n < 256 → unhexOK (UInt8.ofNat n) = true := by decide +kernel
+
+theorem unhex_sound (c : UInt8) (a : Nat) (h : unhex c = some a) : a < 16 ∧ hexDig a = lowerHex c := by
+  have := unhex_sound_nat c.toNat (u8_lt c)
+  rw [u8_ofNat_toNat] at this
+  simp only [unhexOK, h, Bool.and_eq_true, decide_eq_true_eq, beq_iff_eq] at this
+  exact this
+
+/-- whatever from_hex accepts is exactly the (case-folded) hex text of the value it returns -/
+theorem hexDec_sound (t v : Bytes) (h : hexDec t = some v) : hexEnc v = t.map lowerHex := by
+  fun_induction hexDec t generalizing v with
+  | case1 => cases h; rfl
+  | case2 => cases h
+  | case3 p q rest a b hb ha ih =>
+    cases hr : hexDec rest with
+    | none => simp [hr] at h
+    | some w =>
+      simp only [hr, Option.map_some, Option.some.injEq] at h
+      subst h
+      obtain ⟨ha16, hap⟩ := unhex_sound p a ha
+      obtain ⟨hb16, hbq⟩ := unhex_sound q b hb
+      have hn : (UInt8.ofNat (16 * a + b)).toNat = 16 * a + b := u8_toNat_ofNat _ (by omega)
+      simp only [hexEnc, hn, List.map_cons, ih w hr]
+      rw [show (16 * a + b) / 16 = a by omega, show (16 * a + b) % 16 = b by omega, hap, hbq]
+  | case4 => cases h
 end Proofs.C14
